@@ -137,6 +137,36 @@ pub fn check_parents(run: &mut Run, c: MCell) {
             }
         }
     }
+    // a cell and its ancestors at power-of-two jumps decoded alternately (ids that agree in all but the marker position)
+    for jump in [1, 2, 4, 8, 16] {
+        let t = c.res - jump;
+        if t < 0 {
+            break;
+        }
+        let anc = parent_at(c, t).unwrap();
+        let aid = encode(anc);
+        let steps: [(u64, MCell, i32); 3] = [(id, c, (c.res - 1).max(-1)), (aid, anc, (t - 1).max(-1)), (id, c, t)];
+        for (x, xc, target) in steps {
+            match parent(x, Some(target)) {
+                Ok(p) if p == encode(parent_at(xc, target).unwrap()) => run.count("alternating.cell_and_ancestor"),
+                other => run.violation("C07.parent", case(target, jump), format!("cell_to_parent({}, {target}) = {:?} right after handling its {jump}-level relative; tree model {}", hu(x), other.map(hu), hu(encode(parent_at(xc, target).unwrap())))),
+            }
+        }
+        if t < MAX_RES {
+            match children(aid, Some(t + 1)) {
+                Ok(v) => {
+                    let mut got = v.clone();
+                    got.sort_unstable();
+                    let mut want: Vec<u64> = children_at(anc, t + 1).into_iter().map(encode).collect();
+                    want.sort_unstable();
+                    if got != want {
+                        run.violation("C07.children_set", case(t + 1, jump), format!("children of {} differ from the tree model right after handling its {jump}-level descendant", hu(aid)));
+                    }
+                }
+                Err(e) => run.violation("C07.children", case(t + 1, jump), format!("cell_to_children({}, {}) failed: {e}", hu(aid), t + 1)),
+            }
+        }
+    }
     if c.res >= 0 {
         match parent(id, None) {
             Ok(p) if p == chain[c.res as usize] => {}
@@ -202,6 +232,23 @@ fn run(ctx: &Ctx) -> Run {
             check_children(run, c, target, false);
             if rng.chance(0.2) {
                 check_parents(run, c);
+            }
+            // 32-bit twins: the same cell with one curve bit flipped in each half of the word (ids that collide when a
+            // 64-bit id is truncated or folded to 32 bits), handled directly one after the other
+            if res >= 17 && rng.chance(0.3) {
+                let m = marker_bit(res);
+                let lo_bits: Vec<u32> = ((m + 1)..26).collect();
+                if !lo_bits.is_empty() {
+                    let j = lo_bits[rng.usize(lo_bits.len())];
+                    let twin = encode(c) ^ (1u64 << j) ^ (1u64 << (j + 32));
+                    if let Some(tc) = decode(twin) {
+                        let t2 = (tc.res + 1).min(MAX_RES);
+                        check_children(run, c, t2, true);
+                        check_children(run, tc, t2, true);
+                        check_parents(run, tc);
+                        run.count("twins.32_bit_fold");
+                    }
+                }
             }
             run.count(&format!("random.res{:+03}", res));
         }
